@@ -67,6 +67,9 @@ pub struct Mutant {
     /// Names of definitions the fault makes the tool drop (known by construction): each must be
     /// named by an error-level diagnostic.
     pub must_mention: Vec<String>,
+    /// If known by construction: the only definitions the fault may keep from being analysed.
+    /// Every other definition of the named files must still be analysed.
+    pub may_drop: Option<Vec<String>>,
 }
 
 fn main_text(p: &Project) -> String {
@@ -85,7 +88,7 @@ pub fn mutants(base_name: &str) -> Vec<Mutant> {
     let toks = tokenize(&text);
     let mut out = Vec::new();
     let mut push = |kind: &str, position: usize, project: Project, must_error: bool| {
-        out.push(Mutant { base: base_name.to_string(), kind: kind.to_string(), position, project, must_error, must_mention: Vec::new() });
+        out.push(Mutant { base: base_name.to_string(), kind: kind.to_string(), position, project, must_error, must_mention: Vec::new(), may_drop: None });
     };
     for (i, t) in toks.iter().enumerate() {
         let replace = |with: &str| format!("{}{}{}", &text[..t.range.start], with, &text[t.range.end..]);
@@ -218,6 +221,14 @@ pub fn mutants(base_name: &str) -> Vec<Mutant> {
     let no_main = text.replacen("component main = Top(2);\n", "", 1);
     push("duplicate-definition-no-main", 0, with_main(&p, format!("{no_main}\ntemplate Top(m) {{\n    signal input in;\n    signal output out;\n    out <== in;\n}}\n")), true);
     for m in out.iter_mut() {
+        m.may_drop = match m.kind.as_str() {
+            "sugar-in-function" => Some(vec!["double".into()]),
+            "malformed-sugar-in-template" => Some(vec!["Top".into()]),
+            "duplicate-parameter" => Some(vec![["double", "Leaf", "Top"][m.position.min(2)].to_string()]),
+            // the copy that is kept may be the one of an only-included file, which is not analysed
+            k if k.starts_with("duplicate-definition") => Some(vec!["Top".into(), "Leaf".into(), "double".into()]),
+            _ => None,
+        };
         if m.kind == "duplicate-definitions-in-two-files" {
             m.must_mention = vec!["Top".into(), "Leaf".into(), "double".into()];
         } else if m.kind.starts_with("duplicate-definition") && m.kind != "duplicate-definition-of-included" {
@@ -318,6 +329,29 @@ pub fn judge(m: &Mutant, dir: &Path, case: &Value) -> Vec<Violation> {
                     observed: format!("{}\n{}", crate::infra::truncate(&run.stdout, 900), shown_source()),
                 });
                 break;
+            }
+        }
+        if let Some(may_drop) = &m.may_drop {
+            // The fault concerns these definitions only: every other definition of the named
+            // files is analysed although an error is reported.
+            let mut expected: Vec<String> = Vec::new();
+            for name in &m.project.named {
+                if let Some(text) = m.project.files.iter().find(|(n, _)| n == name).and_then(|(_, b)| b.clone()).and_then(|b| String::from_utf8(b).ok()) {
+                    let blanked = crate::refsem::lexer::blank_comments(&text).unwrap_or(text);
+                    expected.extend(definition_headers(&blanked).into_iter().map(|(_, n)| n));
+                }
+            }
+            expected.sort();
+            expected.dedup();
+            let missing: Vec<&String> = expected.iter().filter(|n| !may_drop.contains(n) && !run.analyzed.iter().any(|(_, a)| a == *n)).collect();
+            if !missing.is_empty() && *level == "info" {
+                out.push(Violation {
+                    signature: format!("bystander-not-analysed/{}", m.kind),
+                    what: format!("fault {}@{} in base {}: the definitions {missing:?} have nothing to do with the fault but are not analysed", m.kind, m.position, m.base),
+                    case: c.clone(),
+                    expected: format!("every definition except {may_drop:?} analysed"),
+                    observed: format!("analysed = {:?}\n{}\n{}", run.analyzed, crate::infra::truncate(&run.stdout, 500), shown_source()),
+                });
             }
         }
         if errors == 0 && *level == "info" {
